@@ -202,6 +202,40 @@ seed("C16.R2.predicate-calls-len", "C16", "C16.R2:", "eviction predicate calls b
 seed("C16.R2.delete-closure-locks", "C16", "C16.R2:", "delete's predicate looks the key up again",
      (STORE, "            let result = header.cas == 0 || record.header.cas == header.cas;", "            let result = header.cas == 0 || record.header.cas == header.cas || self.memory.is_empty();"))
 
+
+# ---------------------------------------------------------------- C11
+seed("C11.R1.opaque-dropped", "C11", "C11.R1:", "response opaque not echoed",
+     (HANDLER, "binary::ResponseHeader::new(request_header.opcode, request_header.opaque);", "binary::ResponseHeader::new(request_header.opcode, 0);"))
+seed("C11.R1.request-magic", "C11", "C11.R1:", "response carries the request magic",
+     (BINARY, "            magic: Magic::Response as u8,", "            magic: Magic::Request as u8,"))
+seed("C11.R1.opcode-rewritten", "C11", "C11.R1:", "error responses rewrite the opcode",
+     (CODEC, "    response_header.status = err as u16;", "    response_header.status = err as u16;\n    response_header.opcode = 0;"))
+seed("C11.R2.body-without-key", "C11", "C11.R2:", "hit body length forgets the echoed key",
+     (HANDLER, "record.value.len() as u32 + EXTRAS_LENGTH as u32 + key.len() as u32;", "record.value.len() as u32 + EXTRAS_LENGTH as u32;"))
+seed("C11.R2.extras-zero", "C11", "C11.R2:", "hit announces no extras although 4 flag bytes follow",
+     (HANDLER, "                response_header.extras_length = EXTRAS_LENGTH;\n", ""))
+seed("C11.R2.error-length-off-by-one", "C11", "C11.R2:", "error body length one too long",
+     (CODEC, "    response_header.body_length = message.len() as u32;", "    response_header.body_length = message.len() as u32 + 1;"))
+seed("C11.R2.get-echoes-key", "C11", "C11.R2:", "plain get echoes the key",
+     (HANDLER, "opcode == binary::Command::GetKey as u8 || opcode == binary::Command::GetKeyQuiet as u8", "opcode == binary::Command::GetKey as u8 || opcode == binary::Command::GetKeyQuiet as u8 || opcode == binary::Command::Get as u8"))
+seed("C11.R2.counter-4-bytes", "C11", "C11.R2:", "counter value written as 4 bytes",
+     (CODEC, "            BinaryResponse::Increment(response) | BinaryResponse::Decrement(response) => {\n                dst.put_u64(response.value);\n            }\n        }\n        ResponseMessage", "            BinaryResponse::Increment(response) | BinaryResponse::Decrement(response) => {\n                dst.put_u32(response.value as u32);\n            }\n        }\n        ResponseMessage"))
+seed("C11.R3.swap-body-opaque", "C11", "C11.R3:header:#6", "body_length and opaque swapped on the wire",
+     (CODEC, "        dst.put_u32(header.body_length);\n        dst.put_u32(header.opaque);", "        dst.put_u32(header.opaque);\n        dst.put_u32(header.body_length);"))
+seed("C11.R4.status-shifted", "C11", "C11.R4:", "status code shifted",
+     (CODEC, "    response_header.status = err as u16;", "    response_header.status = (err as u16) << 1;"))
+# ---------------------------------------------------------------- C19
+seed("C19.R3.drop-addquiet", "C19", "C19.R", "AddQuiet treated as replace",
+     (HANDLER, "opcode == binary::Command::Add as u8 || opcode == binary::Command::AddQuiet as u8", "opcode == binary::Command::Add as u8"))
+seed("C19.R2.deleteq-gets", "C19", "C19.R2:", "DeleteQuiet arm performs a get",
+     (HANDLER, "                into_quiet_mutation(self.delete(delete_request, &mut response_header))", "                into_quiet_mutation(self.get(delete_request, &mut response_header))"))
+seed("C19.R1.incrq-zero-delta", "C19", "C19.R1:pair:Increment", "IncrementQuiet decoded with delta 0",
+     (CODEC, "            Ok(Some(BinaryRequest::IncrementQuiet(request)))", "            Ok(Some(BinaryRequest::IncrementQuiet(binary::IncrementRequest {\n                delta: 0,\n                ..request\n            })))"))
+seed("C19.R1.setq-as-add", "C19", "C19.R1:pair:Set", "SetQuiet decoded as AddQuietly",
+     (CODEC, "            Some(binary::Command::SetQuiet) => Ok(Some(BinaryRequest::SetQuietly(set_request))),", "            Some(binary::Command::SetQuiet) => Ok(Some(BinaryRequest::AddQuietly(set_request))),"))
+seed("C19.R4.error-depends-on-opcode", "C19", "C19.R4:", "quiet opcodes get a different error text length",
+     (CODEC, "    response_header.body_length = message.len() as u32;", "    response_header.body_length = if response_header.opcode > 0x10 { 0 } else { message.len() as u32 };"))
+
 # ---------------------------------------------------------------- neutral variants
 neutral("N.rename-local", "rename a local in MemoryStore::set",
         (STORE, "            let cas = self.get_cas_id();\n            record.header.cas = cas;", "            let fresh = self.get_cas_id();\n            let cas = fresh;\n            record.header.cas = cas;"))
